@@ -342,7 +342,27 @@ package cdi
 //@   ensures[only C02.IntelRdt] implies(e != nil && o != nil && o.ContainerEdits != nil,
 //@                   e.IntelRdt == ite(old(o.IntelRdt) != nil, old(o.IntelRdt), ite(old(e.ContainerEdits) == nil, nil, old(e.IntelRdt))))
 
+// ---- C03: what Apply does, as the log of generator operations (contracts/external.gocv) and the direct writes.
+// Expected values, from the statement: type, major and minor of the host node when the Spec leaves them
+// unspecified; uid/gid of the node, else of the process when non-zero, else none (-1); permissions default rwm.
+//@ fn ExpType(d *cdi.DeviceNode) string = ite(NeedsHostInfo(d.Type, d.Major), deviceInfoFromPath(HostPathOf(d.HostPath, d.Path)), d.Type)
+//@ fn ExpMajor(d *cdi.DeviceNode) int64 = ite(NeedsHostInfo(d.Type, d.Major) && d.Major == 0 && ExpType(d) != "p", nth(deviceInfoFromPath, 1, HostPathOf(d.HostPath, d.Path)), d.Major)
+//@ fn ExpMinor(d *cdi.DeviceNode) int64 = ite(NeedsHostInfo(d.Type, d.Major) && d.Major == 0 && ExpType(d) != "p", nth(deviceInfoFromPath, 2, HostPathOf(d.HostPath, d.Path)), d.Minor)
+//@ fn ProcUID(spec *oci.Spec) int = ite(spec.Process != nil && spec.Process.User.UID > 0, spec.Process.User.UID, 0 - 1)
+//@ fn ProcGID(spec *oci.Spec) int = ite(spec.Process != nil && spec.Process.User.GID > 0, spec.Process.User.GID, 0 - 1)
+// the id handed to AddDevice: the node's own pointer when set; else a pointer to a copy of the process id when
+// that is non-zero; else nil. idPtr/idVal: the logged pointer and the value it points to (-1 for nil).
+//@ pred IDOK(own *uint32, proc int, idPtr int, idVal int) = implies(own != nil, idPtr == cast(own, int)) &&
+//@        implies(own == nil && proc >= 0, idPtr != 0 && idVal == proc) && implies(own == nil && proc < 0, idPtr == 0)
+//@ fn ExpPerm(d *cdi.DeviceNode) string = ite(d.Permissions == "", "rwm", d.Permissions)
+//@ pred BlockOrChar(t string) = t == "b" || t == "c"
+//@ fn OffAt(off intarray, k int, start int) int = ite(k == 0, start, off[k])
+//@ fn LenHooksCreateRuntime(spec *oci.Spec) int = ite(spec.Hooks == nil, 0, len(spec.Hooks.CreateRuntime))
+//@ fn LenHooksCreateContainer(spec *oci.Spec) int = ite(spec.Hooks == nil, 0, len(spec.Hooks.CreateContainer))
+//@ fn LenHooksStartContainer(spec *oci.Spec) int = ite(spec.Hooks == nil, 0, len(spec.Hooks.StartContainer))
+//@ pred HookIs(o oci.Hook, h *cdi.Hook) = o.Path == h.Path && o.Args == h.Args && o.Env == h.Env && o.Timeout == h.Timeout
 //@ func (e *ContainerEdits) Apply(spec *oci.Spec) (err error)
+//@   ghostwrites opn, opk, opsA, opsB, opsC, opiA, opiB, opiC, opiD, opiE, opiF, opiG, opiH
 //@   requires e == nil || e.ContainerEdits == nil || NoNilEntries(e.ContainerEdits)
 //@   loop 1 invariant specgen.Config == spec
 //@   loop 2 invariant specgen.Config == spec
@@ -351,6 +371,162 @@ package cdi
 //@   preserves tags.cncf.io/container-device-interface/specs-go, tags.cncf.io/container-device-interface/pkg/cdi
 //@   frametags C14
 //@   ensures implies(spec == nil, err != nil)
+// C03.Devices: for every device node, in order: RemoveDevice(path), AddDevice(node with the expected values),
+// and for block and character nodes AddLinuxResourcesDevice(allow, type, major, minor, permissions).
+// dOff[k]/dEnd[k]: log positions of node k; xT/xMaj/xMin: expected type/major/minor, defined by the ghost updates
+// below as ExpType/ExpMajor/ExpMinor of the node when it is handled; xUid/xGid: the process ids (or -1) at the start of the iteration.
+//@   ghostvar dOff intarray
+//@   ghostvar dEnd intarray
+//@   ghostvar xT strarray
+//@   ghostvar xMaj intarray
+//@   ghostvar xMin intarray
+//@   ghostvar xUid intarray
+//@   ghostvar xGid intarray
+//@   ghostvar dStart int
+//@   ghostvar dTotal int
+//@   ghost at loop 1 body end: dOff = store(dOff, #i, opn)
+//@   ghost at loop 1 body end: dEnd = store(dEnd, #i - 1, opn)
+//@   ghost at loop 1 body end: xT = store(xT, #i - 1, ExpType(e.DeviceNodes[#i - 1]))
+//@   ghost at loop 1 body end: xMaj = store(xMaj, #i - 1, ExpMajor(e.DeviceNodes[#i - 1]))
+//@   ghost at loop 1 body end: xMin = store(xMin, #i - 1, ExpMinor(e.DeviceNodes[#i - 1]))
+//@   ghost at loop 1 body end: xUid = store(xUid, #i - 1, athead(ProcUID(spec)))
+//@   ghost at loop 1 body end: xGid = store(xGid, #i - 1, athead(ProcGID(spec)))
+//@   ghost at loop 1 body end: dStart = atloop(opn)
+//@   ghost at loop 1 body end: dTotal = opn
+//@   assert[only C03.Devices] at loop 1 body end: opn == athead(opn) + 2 + ite(BlockOrChar(xT[#i - 1]), 1, 0) && forall(j, j < athead(opn), trig(opk[j], opk[j] == athead(opk[j]) && opsA[j] == athead(opsA[j]) && opsB[j] == athead(opsB[j]) && opiA[j] == athead(opiA[j]) && opiB[j] == athead(opiB[j]) && opiC[j] == athead(opiC[j]) && opiD[j] == athead(opiD[j]) && opiE[j] == athead(opiE[j]) && opiF[j] == athead(opiF[j]) && opiG[j] == athead(opiG[j]))) &&
+//@                        opk[athead(opn)] == 2 && opsA[athead(opn)] == e.DeviceNodes[#i - 1].Path &&
+//@                        opk[athead(opn) + 1] == 3 && opsA[athead(opn) + 1] == e.DeviceNodes[#i - 1].Path && opsB[athead(opn) + 1] == xT[#i - 1] && opiA[athead(opn) + 1] == xMaj[#i - 1] && opiB[athead(opn) + 1] == xMin[#i - 1] &&
+//@                        opiC[athead(opn) + 1] == cast(e.DeviceNodes[#i - 1].FileMode, int) && IDOK(e.DeviceNodes[#i - 1].UID, xUid[#i - 1], opiD[athead(opn) + 1], opiF[athead(opn) + 1]) && IDOK(e.DeviceNodes[#i - 1].GID, xGid[#i - 1], opiE[athead(opn) + 1], opiG[athead(opn) + 1]) &&
+//@                        implies(BlockOrChar(xT[#i - 1]), opk[athead(opn) + 2] == 4 && opsA[athead(opn) + 2] == xT[#i - 1] && opsB[athead(opn) + 2] == ExpPerm(e.DeviceNodes[#i - 1]) && opiA[athead(opn) + 2] == xMaj[#i - 1] && opiB[athead(opn) + 2] == xMin[#i - 1] && opiC[athead(opn) + 2] == 1)
+//@   loop 1 invariant[only C03.Devices] #i == 0 || (dStart == atloop(opn) && dTotal == opn)
+//@   loop 1 invariant[only C03.Devices] atloop(opn) <= opn && opn == OffAt(dOff, #i, atloop(opn))
+//@   loop 1 invariant[only C03.Devices] forall(k, 1 <= k && k <= #i, trig(dOff[k], dOff[k] == dEnd[k-1]))
+//@   loop 1 invariant[only C03.Devices] forall(k, 0 <= k && k < #i, trig(dOff[k], atloop(opn) <= OffAt(dOff, k, atloop(opn)) && dEnd[k] <= opn && dEnd[k] == OffAt(dOff, k, atloop(opn)) + 2 + ite(BlockOrChar(xT[k]), 1, 0)))
+//@   loop 1 invariant[only C03.Devices] forall(k, 0 <= k && k < #i, trig(dOff[k], opk[OffAt(dOff, k, atloop(opn))] == 2 && opsA[OffAt(dOff, k, atloop(opn))] == e.DeviceNodes[k].Path))
+//@   loop 1 invariant[only C03.Devices] forall(k, 0 <= k && k < #i, trig(dOff[k], opk[OffAt(dOff, k, atloop(opn)) + 1] == 3 && opsA[OffAt(dOff, k, atloop(opn)) + 1] == e.DeviceNodes[k].Path && opsB[OffAt(dOff, k, atloop(opn)) + 1] == xT[k] && opiA[OffAt(dOff, k, atloop(opn)) + 1] == xMaj[k] && opiB[OffAt(dOff, k, atloop(opn)) + 1] == xMin[k]))
+//@   loop 1 invariant[only C03.Devices] forall(k, 0 <= k && k < #i, trig(dOff[k], opiC[OffAt(dOff, k, atloop(opn)) + 1] == cast(e.DeviceNodes[k].FileMode, int) && IDOK(e.DeviceNodes[k].UID, xUid[k], opiD[OffAt(dOff, k, atloop(opn)) + 1], opiF[OffAt(dOff, k, atloop(opn)) + 1]) && IDOK(e.DeviceNodes[k].GID, xGid[k], opiE[OffAt(dOff, k, atloop(opn)) + 1], opiG[OffAt(dOff, k, atloop(opn)) + 1])))
+//@   loop 1 invariant[only C03.Devices] forall(k, 0 <= k && k < #i, trig(dOff[k], implies(BlockOrChar(xT[k]), opk[OffAt(dOff, k, atloop(opn)) + 2] == 4 && opsA[OffAt(dOff, k, atloop(opn)) + 2] == xT[k] && opsB[OffAt(dOff, k, atloop(opn)) + 2] == ExpPerm(e.DeviceNodes[k]) && opiA[OffAt(dOff, k, atloop(opn)) + 2] == xMaj[k] && opiB[OffAt(dOff, k, atloop(opn)) + 2] == xMin[k] && opiC[OffAt(dOff, k, atloop(opn)) + 2] == 1)))
+//@   ghostvar s_opk intarray
+//@   ghost at loop 1 body end: s_opk = opk
+//@   ghostvar s_opsA strarray
+//@   ghost at loop 1 body end: s_opsA = opsA
+//@   ghostvar s_opsB strarray
+//@   ghost at loop 1 body end: s_opsB = opsB
+//@   ghostvar s_opiA intarray
+//@   ghost at loop 1 body end: s_opiA = opiA
+//@   ghostvar s_opiB intarray
+//@   ghost at loop 1 body end: s_opiB = opiB
+//@   ghostvar s_opiC intarray
+//@   ghost at loop 1 body end: s_opiC = opiC
+//@   ghostvar s_opiD intarray
+//@   ghost at loop 1 body end: s_opiD = opiD
+//@   ghostvar s_opiE intarray
+//@   ghost at loop 1 body end: s_opiE = opiE
+//@   ghostvar s_opiF intarray
+//@   ghost at loop 1 body end: s_opiF = opiF
+//@   ghostvar s_opiG intarray
+//@   ghost at loop 1 body end: s_opiG = opiG
+//@   loop 1 invariant[only C03.Devices] implies(#i > 0, forall(j, j < dTotal, trig(opk[j], opk[j] == s_opk[j] && opsA[j] == s_opsA[j] && opsB[j] == s_opsB[j] && opiA[j] == s_opiA[j] && opiB[j] == s_opiB[j] && opiC[j] == s_opiC[j] && opiD[j] == s_opiD[j] && opiE[j] == s_opiE[j] && opiF[j] == s_opiF[j] && opiG[j] == s_opiG[j])))
+//@   loop 2 invariant[only C03.Devices] implies(len(e.DeviceNodes) > 0, dTotal <= opn && forall(j, j < dTotal, trig(opk[j], opk[j] == s_opk[j] && opsA[j] == s_opsA[j] && opsB[j] == s_opsB[j] && opiA[j] == s_opiA[j] && opiB[j] == s_opiB[j] && opiC[j] == s_opiC[j] && opiD[j] == s_opiD[j] && opiE[j] == s_opiE[j] && opiF[j] == s_opiF[j] && opiG[j] == s_opiG[j])))
+//@   loop 3 invariant[only C03.Devices] implies(len(e.DeviceNodes) > 0, dTotal <= opn && forall(j, j < dTotal, trig(opk[j], opk[j] == s_opk[j] && opsA[j] == s_opsA[j] && opsB[j] == s_opsB[j] && opiA[j] == s_opiA[j] && opiB[j] == s_opiB[j] && opiC[j] == s_opiC[j] && opiD[j] == s_opiD[j] && opiE[j] == s_opiE[j] && opiF[j] == s_opiF[j] && opiG[j] == s_opiG[j])))
+//@   loop 4 invariant[only C03.Devices] implies(len(e.DeviceNodes) > 0, dTotal <= opn && forall(j, j < dTotal, trig(opk[j], opk[j] == s_opk[j] && opsA[j] == s_opsA[j] && opsB[j] == s_opsB[j] && opiA[j] == s_opiA[j] && opiB[j] == s_opiB[j] && opiC[j] == s_opiC[j] && opiD[j] == s_opiD[j] && opiE[j] == s_opiE[j] && opiF[j] == s_opiF[j] && opiG[j] == s_opiG[j])))
+//@   assert[only C03.Devices] at return: implies(err == nil && e != nil && e.ContainerEdits != nil && len(e.DeviceNodes) > 0, dTotal <= opn)
+//@   assert[only C03.Devices] at return: implies(err == nil && e != nil && e.ContainerEdits != nil && len(e.DeviceNodes) > 0, dStart <= opn && dTotal == OffAt(dOff, len(e.DeviceNodes), dStart))
+//@   assert[only C03.Devices] at return: implies(err == nil && e != nil && e.ContainerEdits != nil && len(e.DeviceNodes) > 0, forall(k, 1 <= k && k <= len(e.DeviceNodes), trig(dOff[k], dOff[k] == dEnd[k-1])))
+//@   assert[only C03.Devices] at return: implies(err == nil && e != nil && e.ContainerEdits != nil && len(e.DeviceNodes) > 0, forall(k, 0 <= k && k < len(e.DeviceNodes), trig(dOff[k], dStart <= OffAt(dOff, k, dStart) && dEnd[k] <= dTotal && dEnd[k] == OffAt(dOff, k, dStart) + 2 + ite(BlockOrChar(xT[k]), 1, 0))))
+//@   assert[only C03.Devices] at return: implies(err == nil && e != nil && e.ContainerEdits != nil && len(e.DeviceNodes) > 0, forall(k, 0 <= k && k < len(e.DeviceNodes), trig(dOff[k], opk[OffAt(dOff, k, dStart)] == 2 && opsA[OffAt(dOff, k, dStart)] == e.DeviceNodes[k].Path)))
+//@   assert[only C03.Devices] at return: implies(err == nil && e != nil && e.ContainerEdits != nil && len(e.DeviceNodes) > 0, forall(k, 0 <= k && k < len(e.DeviceNodes), trig(dOff[k], opk[OffAt(dOff, k, dStart) + 1] == 3 && opsA[OffAt(dOff, k, dStart) + 1] == e.DeviceNodes[k].Path && opsB[OffAt(dOff, k, dStart) + 1] == xT[k] && opiA[OffAt(dOff, k, dStart) + 1] == xMaj[k] && opiB[OffAt(dOff, k, dStart) + 1] == xMin[k])))
+//@   assert[only C03.Devices] at return: implies(err == nil && e != nil && e.ContainerEdits != nil && len(e.DeviceNodes) > 0, forall(k, 0 <= k && k < len(e.DeviceNodes), trig(dOff[k], opiC[OffAt(dOff, k, dStart) + 1] == cast(e.DeviceNodes[k].FileMode, int) && IDOK(e.DeviceNodes[k].UID, xUid[k], opiD[OffAt(dOff, k, dStart) + 1], opiF[OffAt(dOff, k, dStart) + 1]) && IDOK(e.DeviceNodes[k].GID, xGid[k], opiE[OffAt(dOff, k, dStart) + 1], opiG[OffAt(dOff, k, dStart) + 1]))))
+//@   assert[only C03.Devices] at return: implies(err == nil && e != nil && e.ContainerEdits != nil && len(e.DeviceNodes) > 0, forall(k, 0 <= k && k < len(e.DeviceNodes), trig(dOff[k], implies(BlockOrChar(xT[k]), opk[OffAt(dOff, k, dStart) + 2] == 4 && opsA[OffAt(dOff, k, dStart) + 2] == xT[k] && opsB[OffAt(dOff, k, dStart) + 2] == ExpPerm(e.DeviceNodes[k]) && opiA[OffAt(dOff, k, dStart) + 2] == xMaj[k] && opiB[OffAt(dOff, k, dStart) + 2] == xMin[k] && opiC[OffAt(dOff, k, dStart) + 2] == 1))))
+// C03.Mounts: for every mount, in order: RemoveMount(containerPath), AddMount(source: hostPath, destination:
+// containerPath, type, options); after the last one, one stable sort of the generator's mount list by depth.
+//@   ghostvar mStart int
+//@   ghostvar mTotal int
+//@   ghost at loop 2 body end: mStart = atloop(opn)
+//@   ghost at loop 2 body end: mTotal = opn
+//@   assert[only C03.Mounts] at loop 2 body end: opn == athead(opn) + 2 && forall(j, j < athead(opn), trig(opk[j], opk[j] == athead(opk[j]) && opsA[j] == athead(opsA[j]) && opsB[j] == athead(opsB[j]) && opsC[j] == athead(opsC[j]) && opiA[j] == athead(opiA[j]) && opiB[j] == athead(opiB[j]) && opiC[j] == athead(opiC[j]))) &&
+//@                        opk[athead(opn)] == 5 && opsA[athead(opn)] == e.Mounts[#i - 1].ContainerPath &&
+//@                        opk[athead(opn) + 1] == 6 && opsA[athead(opn) + 1] == e.Mounts[#i - 1].ContainerPath && opsB[athead(opn) + 1] == e.Mounts[#i - 1].HostPath && opsC[athead(opn) + 1] == e.Mounts[#i - 1].Type &&
+//@                        opiA[athead(opn) + 1] == base(e.Mounts[#i - 1].Options) && opiB[athead(opn) + 1] == off(e.Mounts[#i - 1].Options) && opiC[athead(opn) + 1] == len(e.Mounts[#i - 1].Options)
+//@   loop 2 invariant[only C03.Mounts] (#i == 0 || (mStart == atloop(opn) && mTotal == opn)) && opn == atloop(opn) + 2 * #i &&
+//@                        forall(k, 0 <= k && k < #i, trig(pos(e.Mounts, k), opk[(atloop(opn) + 2 * k)] == 5 && opsA[(atloop(opn) + 2 * k)] == e.Mounts[k].ContainerPath &&
+//@                        opk[(atloop(opn) + 2 * k) + 1] == 6 && opsA[(atloop(opn) + 2 * k) + 1] == e.Mounts[k].ContainerPath && opsB[(atloop(opn) + 2 * k) + 1] == e.Mounts[k].HostPath && opsC[(atloop(opn) + 2 * k) + 1] == e.Mounts[k].Type &&
+//@                        opiA[(atloop(opn) + 2 * k) + 1] == base(e.Mounts[k].Options) && opiB[(atloop(opn) + 2 * k) + 1] == off(e.Mounts[k].Options) && opiC[(atloop(opn) + 2 * k) + 1] == len(e.Mounts[k].Options)))
+//@   loop 3 invariant[only C03.Mounts] atloop(opn) <= opn && forall(j, j < atloop(opn), trig(opk[j], opk[j] == atloop(opk[j]) && opsA[j] == atloop(opsA[j]) && opsB[j] == atloop(opsB[j]) && opsC[j] == atloop(opsC[j]) && opiA[j] == atloop(opiA[j]) && opiB[j] == atloop(opiB[j]) && opiC[j] == atloop(opiC[j])))
+//@   loop 4 invariant[only C03.Mounts] atloop(opn) <= opn && forall(j, j < atloop(opn), trig(opk[j], opk[j] == atloop(opk[j]) && opsA[j] == atloop(opsA[j]) && opsB[j] == atloop(opsB[j]) && opsC[j] == atloop(opsC[j]) && opiA[j] == atloop(opiA[j]) && opiB[j] == atloop(opiB[j]) && opiC[j] == atloop(opiC[j])))
+//@   assert[only C03.Mounts] at return: implies(err == nil && e != nil && e.ContainerEdits != nil && len(e.Mounts) > 0, mTotal == mStart + 2 * len(e.Mounts) && mTotal < opn && opk[mTotal] == 12 &&
+//@                        forall(k, 0 <= k && k < len(e.Mounts), trig(pos(e.Mounts, k), opk[(mStart + 2 * k)] == 5 && opsA[(mStart + 2 * k)] == e.Mounts[k].ContainerPath &&
+//@                        opk[(mStart + 2 * k) + 1] == 6 && opsA[(mStart + 2 * k) + 1] == e.Mounts[k].ContainerPath && opsB[(mStart + 2 * k) + 1] == e.Mounts[k].HostPath && opsC[(mStart + 2 * k) + 1] == e.Mounts[k].Type &&
+//@                        opiA[(mStart + 2 * k) + 1] == base(e.Mounts[k].Options) && opiB[(mStart + 2 * k) + 1] == off(e.Mounts[k].Options) && opiC[(mStart + 2 * k) + 1] == len(e.Mounts[k].Options))))
+//@   assert[only C03.Mounts] at call of sortMounts: len(e.Mounts) > 0 && #arg0 == &specgen
+// C03.Hooks: every hook goes to exactly the list of its stage: prestart/poststart/poststop through the generator
+// (logged with path, args, env, timeout), createRuntime/createContainer/startContainer by a direct append to
+// that list of spec.Hooks (one more element, which is the hook; the other two direct lists keep their length).
+//@   ghostvar hOff intarray
+//@   ghostvar hEnd intarray
+//@   ghostvar hStart int
+//@   ghostvar hTotal int
+//@   ghost at loop 3 body end: hOff = store(hOff, #i, opn)
+//@   ghost at loop 3 body end: hEnd = store(hEnd, #i - 1, opn)
+//@   ghost at loop 3 body end: hStart = atloop(opn)
+//@   ghost at loop 3 body end: hTotal = opn
+//@   assert[only C03.Hooks] at loop 3 body end: forall(j, j < athead(opn), trig(opk[j], opk[j] == athead(opk[j]) && opsA[j] == athead(opsA[j]) && opiA[j] == athead(opiA[j]) && opiB[j] == athead(opiB[j]) && opiC[j] == athead(opiC[j]) && opiD[j] == athead(opiD[j]) && opiE[j] == athead(opiE[j]))) &&
+//@                        implies(e.Hooks[#i - 1].HookName == "prestart", opk[athead(opn)] == 7 && opsA[athead(opn)] == e.Hooks[#i - 1].Path && opiA[athead(opn)] == base(e.Hooks[#i - 1].Args) && opiB[athead(opn)] == len(e.Hooks[#i - 1].Args) && opiC[athead(opn)] == base(e.Hooks[#i - 1].Env) && opiD[athead(opn)] == len(e.Hooks[#i - 1].Env) && opiE[athead(opn)] == cast(e.Hooks[#i - 1].Timeout, int) && opn == athead(opn) + 1) &&
+//@                        implies(e.Hooks[#i - 1].HookName == "poststart", opk[athead(opn)] == 8 && opsA[athead(opn)] == e.Hooks[#i - 1].Path && opiA[athead(opn)] == base(e.Hooks[#i - 1].Args) && opiB[athead(opn)] == len(e.Hooks[#i - 1].Args) && opiC[athead(opn)] == base(e.Hooks[#i - 1].Env) && opiD[athead(opn)] == len(e.Hooks[#i - 1].Env) && opiE[athead(opn)] == cast(e.Hooks[#i - 1].Timeout, int) && opn == athead(opn) + 1) &&
+//@                        implies(e.Hooks[#i - 1].HookName == "poststop", opk[athead(opn)] == 9 && opsA[athead(opn)] == e.Hooks[#i - 1].Path && opiA[athead(opn)] == base(e.Hooks[#i - 1].Args) && opiB[athead(opn)] == len(e.Hooks[#i - 1].Args) && opiC[athead(opn)] == base(e.Hooks[#i - 1].Env) && opiD[athead(opn)] == len(e.Hooks[#i - 1].Env) && opiE[athead(opn)] == cast(e.Hooks[#i - 1].Timeout, int) && opn == athead(opn) + 1) &&
+//@                        implies(e.Hooks[#i - 1].HookName == "createRuntime" || e.Hooks[#i - 1].HookName == "createContainer" || e.Hooks[#i - 1].HookName == "startContainer", opn == athead(opn)) &&
+//@                        (e.Hooks[#i - 1].HookName == "prestart" || e.Hooks[#i - 1].HookName == "poststart" || e.Hooks[#i - 1].HookName == "poststop" || e.Hooks[#i - 1].HookName == "createRuntime" || e.Hooks[#i - 1].HookName == "createContainer" || e.Hooks[#i - 1].HookName == "startContainer")
+//@   assert[only C03.Hooks] at loop 3 body end: implies(e.Hooks[#i - 1].HookName == "createRuntime", spec.Hooks != nil && len(spec.Hooks.CreateRuntime) == athead(LenHooksCreateRuntime(spec)) + 1 && HookIs(spec.Hooks.CreateRuntime[len(spec.Hooks.CreateRuntime) - 1], e.Hooks[#i - 1]) && len(spec.Hooks.CreateContainer) == athead(LenHooksCreateContainer(spec)) && len(spec.Hooks.StartContainer) == athead(LenHooksStartContainer(spec))) &&
+//@                        implies(e.Hooks[#i - 1].HookName == "createContainer", spec.Hooks != nil && len(spec.Hooks.CreateContainer) == athead(LenHooksCreateContainer(spec)) + 1 && HookIs(spec.Hooks.CreateContainer[len(spec.Hooks.CreateContainer) - 1], e.Hooks[#i - 1]) && len(spec.Hooks.CreateRuntime) == athead(LenHooksCreateRuntime(spec)) && len(spec.Hooks.StartContainer) == athead(LenHooksStartContainer(spec))) &&
+//@                        implies(e.Hooks[#i - 1].HookName == "startContainer", spec.Hooks != nil && len(spec.Hooks.StartContainer) == athead(LenHooksStartContainer(spec)) + 1 && HookIs(spec.Hooks.StartContainer[len(spec.Hooks.StartContainer) - 1], e.Hooks[#i - 1]) && len(spec.Hooks.CreateRuntime) == athead(LenHooksCreateRuntime(spec)) && len(spec.Hooks.CreateContainer) == athead(LenHooksCreateContainer(spec)))
+//@   loop 3 invariant[only C03.Hooks] (#i == 0 || (hStart == atloop(opn) && hTotal == opn)) && atloop(opn) <= opn && opn == OffAt(hOff, #i, atloop(opn)) &&
+//@                        forall(k, 1 <= k && k <= #i, trig(hOff[k], hOff[k] == hEnd[k-1])) &&
+//@                        forall(k, 0 <= k && k < #i, trig(hEnd[k], atloop(opn) <= OffAt(hOff, k, atloop(opn)) && hEnd[k] <= opn && implies(e.Hooks[k].HookName == "prestart", opk[OffAt(hOff, k, atloop(opn))] == 7 && opsA[OffAt(hOff, k, atloop(opn))] == e.Hooks[k].Path && opiA[OffAt(hOff, k, atloop(opn))] == base(e.Hooks[k].Args) && opiB[OffAt(hOff, k, atloop(opn))] == len(e.Hooks[k].Args) && opiC[OffAt(hOff, k, atloop(opn))] == base(e.Hooks[k].Env) && opiD[OffAt(hOff, k, atloop(opn))] == len(e.Hooks[k].Env) && opiE[OffAt(hOff, k, atloop(opn))] == cast(e.Hooks[k].Timeout, int) && hEnd[k] == OffAt(hOff, k, atloop(opn)) + 1) &&
+//@                        implies(e.Hooks[k].HookName == "poststart", opk[OffAt(hOff, k, atloop(opn))] == 8 && opsA[OffAt(hOff, k, atloop(opn))] == e.Hooks[k].Path && opiA[OffAt(hOff, k, atloop(opn))] == base(e.Hooks[k].Args) && opiB[OffAt(hOff, k, atloop(opn))] == len(e.Hooks[k].Args) && opiC[OffAt(hOff, k, atloop(opn))] == base(e.Hooks[k].Env) && opiD[OffAt(hOff, k, atloop(opn))] == len(e.Hooks[k].Env) && opiE[OffAt(hOff, k, atloop(opn))] == cast(e.Hooks[k].Timeout, int) && hEnd[k] == OffAt(hOff, k, atloop(opn)) + 1) &&
+//@                        implies(e.Hooks[k].HookName == "poststop", opk[OffAt(hOff, k, atloop(opn))] == 9 && opsA[OffAt(hOff, k, atloop(opn))] == e.Hooks[k].Path && opiA[OffAt(hOff, k, atloop(opn))] == base(e.Hooks[k].Args) && opiB[OffAt(hOff, k, atloop(opn))] == len(e.Hooks[k].Args) && opiC[OffAt(hOff, k, atloop(opn))] == base(e.Hooks[k].Env) && opiD[OffAt(hOff, k, atloop(opn))] == len(e.Hooks[k].Env) && opiE[OffAt(hOff, k, atloop(opn))] == cast(e.Hooks[k].Timeout, int) && hEnd[k] == OffAt(hOff, k, atloop(opn)) + 1) &&
+//@                        implies(e.Hooks[k].HookName == "createRuntime" || e.Hooks[k].HookName == "createContainer" || e.Hooks[k].HookName == "startContainer", hEnd[k] == OffAt(hOff, k, atloop(opn))) &&
+//@                        (e.Hooks[k].HookName == "prestart" || e.Hooks[k].HookName == "poststart" || e.Hooks[k].HookName == "poststop" || e.Hooks[k].HookName == "createRuntime" || e.Hooks[k].HookName == "createContainer" || e.Hooks[k].HookName == "startContainer")))
+//@   loop 4 invariant[only C03.Hooks] atloop(opn) <= opn && forall(j, j < atloop(opn), trig(opk[j], opk[j] == atloop(opk[j]) && opsA[j] == atloop(opsA[j]) && opiA[j] == atloop(opiA[j]) && opiB[j] == atloop(opiB[j]) && opiC[j] == atloop(opiC[j]) && opiD[j] == atloop(opiD[j]) && opiE[j] == atloop(opiE[j])))
+//@   assert[only C03.Hooks] at return: implies(err == nil && e != nil && e.ContainerEdits != nil && len(e.Hooks) > 0, hTotal <= opn && hStart <= hTotal && hTotal == OffAt(hOff, len(e.Hooks), hStart) &&
+//@                        forall(k, 1 <= k && k <= len(e.Hooks), trig(hOff[k], hOff[k] == hEnd[k-1])) &&
+//@                        forall(k, 0 <= k && k < len(e.Hooks), trig(hEnd[k], hStart <= OffAt(hOff, k, hStart) && hEnd[k] <= hTotal && implies(e.Hooks[k].HookName == "prestart", opk[OffAt(hOff, k, hStart)] == 7 && opsA[OffAt(hOff, k, hStart)] == e.Hooks[k].Path && opiA[OffAt(hOff, k, hStart)] == base(e.Hooks[k].Args) && opiB[OffAt(hOff, k, hStart)] == len(e.Hooks[k].Args) && opiC[OffAt(hOff, k, hStart)] == base(e.Hooks[k].Env) && opiD[OffAt(hOff, k, hStart)] == len(e.Hooks[k].Env) && opiE[OffAt(hOff, k, hStart)] == cast(e.Hooks[k].Timeout, int) && hEnd[k] == OffAt(hOff, k, hStart) + 1) &&
+//@                        implies(e.Hooks[k].HookName == "poststart", opk[OffAt(hOff, k, hStart)] == 8 && opsA[OffAt(hOff, k, hStart)] == e.Hooks[k].Path && opiA[OffAt(hOff, k, hStart)] == base(e.Hooks[k].Args) && opiB[OffAt(hOff, k, hStart)] == len(e.Hooks[k].Args) && opiC[OffAt(hOff, k, hStart)] == base(e.Hooks[k].Env) && opiD[OffAt(hOff, k, hStart)] == len(e.Hooks[k].Env) && opiE[OffAt(hOff, k, hStart)] == cast(e.Hooks[k].Timeout, int) && hEnd[k] == OffAt(hOff, k, hStart) + 1) &&
+//@                        implies(e.Hooks[k].HookName == "poststop", opk[OffAt(hOff, k, hStart)] == 9 && opsA[OffAt(hOff, k, hStart)] == e.Hooks[k].Path && opiA[OffAt(hOff, k, hStart)] == base(e.Hooks[k].Args) && opiB[OffAt(hOff, k, hStart)] == len(e.Hooks[k].Args) && opiC[OffAt(hOff, k, hStart)] == base(e.Hooks[k].Env) && opiD[OffAt(hOff, k, hStart)] == len(e.Hooks[k].Env) && opiE[OffAt(hOff, k, hStart)] == cast(e.Hooks[k].Timeout, int) && hEnd[k] == OffAt(hOff, k, hStart) + 1) &&
+//@                        implies(e.Hooks[k].HookName == "createRuntime" || e.Hooks[k].HookName == "createContainer" || e.Hooks[k].HookName == "startContainer", hEnd[k] == OffAt(hOff, k, hStart)) &&
+//@                        (e.Hooks[k].HookName == "prestart" || e.Hooks[k].HookName == "poststart" || e.Hooks[k].HookName == "poststop" || e.Hooks[k].HookName == "createRuntime" || e.Hooks[k].HookName == "createContainer" || e.Hooks[k].HookName == "startContainer"))))
+// C03.Rest: AddMultipleProcessEnv(e.Env) first, iff there are variables; SetLinuxIntelRdtClosID and a copy of the
+// five RDT fields into a fresh spec.Linux.IntelRdt iff an RDT edit is present; AddProcessAdditionalGid(g) for every
+// g != 0 in order and never for 0 (xG[k]: the k-th id as it is when its turn comes).
+//@   ghostvar n0 int
+//@   ghostvar gOff intarray
+//@   ghostvar gEnd intarray
+//@   ghostvar gStart int
+//@   ghostvar gTotal int
+//@   ghost at entry: n0 = opn
+//@   ghostvar xG intarray
+//@   ghost at loop 4 body end: xG = store(xG, #i - 1, athead(e.AdditionalGIDs[#i - 1]))
+//@   ghost at loop 4 body end: gOff = store(gOff, #i, opn)
+//@   ghost at loop 4 body end: gEnd = store(gEnd, #i - 1, opn)
+//@   ghost at loop 4 body end: gStart = atloop(opn)
+//@   ghost at loop 4 body end: gTotal = opn
+//@   loop 1 invariant[only C03.Rest] n0 + ite(len(e.Env) > 0, 1, 0) <= opn && implies(len(e.Env) > 0, opk[n0] == 1 && opiA[n0] == base(e.Env) && opiB[n0] == off(e.Env) && opiC[n0] == len(e.Env)) && implies(#i == 0, opn == n0 + ite(len(e.Env) > 0, 1, 0))
+//@   loop 2 invariant[only C03.Rest] n0 + ite(len(e.Env) > 0, 1, 0) <= opn && implies(len(e.Env) > 0, opk[n0] == 1 && opiA[n0] == base(e.Env) && opiB[n0] == off(e.Env) && opiC[n0] == len(e.Env))
+//@   loop 3 invariant[only C03.Rest] n0 + ite(len(e.Env) > 0, 1, 0) <= opn && implies(len(e.Env) > 0, opk[n0] == 1 && opiA[n0] == base(e.Env) && opiB[n0] == off(e.Env) && opiC[n0] == len(e.Env))
+//@   loop 4 invariant[only C03.Rest] n0 + ite(len(e.Env) > 0, 1, 0) <= opn && implies(len(e.Env) > 0, opk[n0] == 1 && opiA[n0] == base(e.Env) && opiB[n0] == off(e.Env) && opiC[n0] == len(e.Env))
+//@   assert[only C03.Rest] at return: implies(err == nil && e != nil && e.ContainerEdits != nil, n0 + ite(len(e.Env) > 0, 1, 0) <= opn && implies(len(e.Env) > 0, opk[n0] == 1 && opiA[n0] == base(e.Env) && opiB[n0] == off(e.Env) && opiC[n0] == len(e.Env)))
+//@   assert[only C03.Rest] at loop 4 body end: forall(j, j < athead(opn), trig(opk[j], opk[j] == athead(opk[j]) && opiA[j] == athead(opiA[j]) && opiB[j] == athead(opiB[j]) && opiC[j] == athead(opiC[j]))) && implies(xG[#i - 1] != 0, opk[athead(opn)] == 11 && opiA[athead(opn)] == xG[#i - 1] && opn == athead(opn) + 1) &&
+//@                        implies(xG[#i - 1] == 0, opn == athead(opn))
+//@   loop 4 invariant[only C03.Rest] (#i == 0 || (gStart == atloop(opn) && gTotal == opn)) && atloop(opn) <= opn && opn == OffAt(gOff, #i, atloop(opn)) &&
+//@                        forall(k, 1 <= k && k <= #i, trig(gOff[k], gOff[k] == gEnd[k-1])) &&
+//@                        forall(k, 0 <= k && k < #i, trig(gEnd[k], atloop(opn) <= OffAt(gOff, k, atloop(opn)) && gEnd[k] <= opn && implies(xG[k] != 0, opk[OffAt(gOff, k, atloop(opn))] == 11 && opiA[OffAt(gOff, k, atloop(opn))] == xG[k] && gEnd[k] == OffAt(gOff, k, atloop(opn)) + 1) &&
+//@                        implies(xG[k] == 0, gEnd[k] == OffAt(gOff, k, atloop(opn)))))
+//@   loop 4 invariant[only C03.Rest] implies(#i == 0 && e.IntelRdt != nil, opk[opn - 1] == 10 && opsA[opn - 1] == e.IntelRdt.ClosID && spec.Linux != nil && spec.Linux.IntelRdt != nil &&
+//@                        spec.Linux.IntelRdt.ClosID == e.IntelRdt.ClosID && spec.Linux.IntelRdt.L3CacheSchema == e.IntelRdt.L3CacheSchema && spec.Linux.IntelRdt.MemBwSchema == e.IntelRdt.MemBwSchema &&
+//@                        spec.Linux.IntelRdt.EnableCMT == e.IntelRdt.EnableCMT && spec.Linux.IntelRdt.EnableMBM == e.IntelRdt.EnableMBM)
+//@   assert[only C03.Rest] at return: implies(err == nil && e != nil && e.ContainerEdits != nil && len(e.AdditionalGIDs) > 0, gTotal == opn && gTotal == OffAt(gOff, len(e.AdditionalGIDs), gStart) &&
+//@                        forall(k, 1 <= k && k <= len(e.AdditionalGIDs), trig(gOff[k], gOff[k] == gEnd[k-1])) &&
+//@                        forall(k, 0 <= k && k < len(e.AdditionalGIDs), trig(gEnd[k], gStart <= OffAt(gOff, k, gStart) && gEnd[k] <= gTotal && implies(xG[k] != 0, opk[OffAt(gOff, k, gStart)] == 11 && opiA[OffAt(gOff, k, gStart)] == xG[k] && gEnd[k] == OffAt(gOff, k, gStart) + 1) &&
+//@                        implies(xG[k] == 0, gEnd[k] == OffAt(gOff, k, gStart)))))
 
 // C02 oracle, from the statement: request k contributes the edits of its Spec file if no earlier resolved
 // request belongs to the same file, then the edits of the device itself. dv[k] is the device request k
@@ -373,6 +549,7 @@ package cdi
 //@        ite(DvAt(dv, k).ContainerEdits.IntelRdt != nil, cast(DvAt(dv, k).ContainerEdits.IntelRdt, int),
 //@        ite(fst[k] && DvAt(dv, k).spec.ContainerEdits.IntelRdt != nil, cast(DvAt(dv, k).spec.ContainerEdits.IntelRdt, int), rdtIn[k])))
 //@ func (c *Cache) InjectDevices(ociSpec *oci.Spec, devices []string) (unresolved []string, err error)
+//@   ghostwrites opn, opk, opsA, opsB, opsC, opiA, opiB, opiC, opiD, opiE, opiF, opiG, opiH
 //@   requires c != nil
 //@   preserves tags.cncf.io/container-device-interface/specs-go
 //@   frametags C14
@@ -618,13 +795,29 @@ package cdi
 //@ pred NoNilEntries(c *cdi.ContainerEdits) = forall(i, 0 <= i && i < len(c.DeviceNodes), c.DeviceNodes[i] != nil) &&
 //@        forall(i, 0 <= i && i < len(c.Hooks), c.Hooks[i] != nil) && forall(i, 0 <= i && i < len(c.Mounts), c.Mounts[i] != nil)
 
+// The host lookup is taken to be a function of the path for the duration of one call (the node is not
+// replaced while Apply runs): assumption `deterministic`.
 //@ func deviceInfoFromPath(path string) (devType string, major, minor int64, err error)
 //@   pure
+//@   deterministic
+//@   ensures[C03] implies(err == nil, devType == "b" || devType == "c" || devType == "p")
 
+// C03: type, major and minor come from the host node exactly when the Spec leaves them unspecified.
+//@ fn HostPathOf(hostPath string, path string) string = ite(hostPath == "", path, hostPath)
+//@ pred NeedsHostInfo(t string, major int64) = !(t != "" && (major != 0 || t == "p"))
 //@ func (d *DeviceNode) fillMissingInfo() (err error)
 //@   requires d != nil && d.DeviceNode != nil
 //@   modifies d.DeviceNode.HostPath, d.DeviceNode.Type, d.DeviceNode.Major, d.DeviceNode.Minor
 //@   frametags C14
+//@   ensures[only C03] d.HostPath == old(HostPathOf(d.HostPath, d.Path))
+//@   ensures[only C03] implies(!old(NeedsHostInfo(d.Type, d.Major)), err == nil && d.Type == old(d.Type) && d.Major == old(d.Major) && d.Minor == old(d.Minor))
+//@   ensures[only C03] implies(old(NeedsHostInfo(d.Type, d.Major)) && !succeeds(deviceInfoFromPath, d.HostPath), err != nil)
+//@   ensures[only C03] implies(old(NeedsHostInfo(d.Type, d.Major)) && succeeds(deviceInfoFromPath, d.HostPath),
+//@                   iff(err == nil, old(d.Type) == "" || old(d.Type) == deviceInfoFromPath(d.HostPath)))
+//@   ensures[only C03] implies(old(NeedsHostInfo(d.Type, d.Major)) && err == nil,
+//@                   d.Type == deviceInfoFromPath(d.HostPath) &&
+//@                   d.Major == ite(old(d.Major) == 0 && d.Type != "p", nth(deviceInfoFromPath, 1, d.HostPath), old(d.Major)) &&
+//@                   d.Minor == ite(old(d.Major) == 0 && d.Type != "p", nth(deviceInfoFromPath, 2, d.HostPath), old(d.Minor)))
 
 //@ func (d *DeviceNode) toOCI() (r oci.LinuxDevice)
 //@   pure
@@ -643,24 +836,35 @@ package cdi
 //@   pure
 //@   requires i != nil && i.IntelRdt != nil
 //@   ensures r != nil && fresh(r)
+//@   ensures[C03] r.ClosID == i.ClosID && r.L3CacheSchema == i.L3CacheSchema && r.MemBwSchema == i.MemBwSchema && r.EnableCMT == i.EnableCMT && r.EnableMBM == i.EnableMBM
 
 //@ func ensureOCIHooks(spec *oci.Spec)
 //@   requires spec != nil
 //@   modifies spec.Hooks
 //@   frametags C14
 //@   ensures spec.Hooks != nil
+//@   ensures[C03] implies(old(spec.Hooks) != nil, spec.Hooks == old(spec.Hooks))
+//@   ensures[C03] implies(old(spec.Hooks) == nil, fresh(spec.Hooks) && len(spec.Hooks.CreateRuntime) == 0 && len(spec.Hooks.CreateContainer) == 0 &&
+//@                   len(spec.Hooks.StartContainer) == 0 && len(spec.Hooks.Prestart) == 0 && len(spec.Hooks.Poststart) == 0 && len(spec.Hooks.Poststop) == 0)
 
+// C03: one stable sort (operation 12) of the generator's mount list, which then is the spec's mount list.
 //@ func sortMounts(specgen *ocigen.Generator)
+//@   ensures[only C03] opn == old(opn) + 1 && opk[old(opn)] == 12 && base(specgen.Config.Mounts) == opiA[old(opn)] && len(specgen.Config.Mounts) == opiB[old(opn)]
+//@   ensures[only C03] forall(j, j < old(opn), trig(opk[j], opk[j] == old(opk[j]) && opsA[j] == old(opsA[j]) && opsB[j] == old(opsB[j]) && opsC[j] == old(opsC[j]) &&
+//@                   opiA[j] == old(opiA[j]) && opiB[j] == old(opiB[j]) && opiC[j] == old(opiC[j]) && opiD[j] == old(opiD[j]) && opiE[j] == old(opiE[j]) && opiF[j] == old(opiF[j]) && opiG[j] == old(opiG[j])))
+//@   ghostwrites opn, opk, opsA, opsB, opsC, opiA, opiB, opiC, opiD, opiE, opiF, opiG, opiH
 //@   requires specgen != nil && specgen.Config != nil
 //@   preserves tags.cncf.io/container-device-interface/specs-go, tags.cncf.io/container-device-interface/pkg/cdi
 //@   frametags C14
 //@   ensures specgen.Config == old(specgen.Config)
 
 //@ func (d *Device) ApplyEdits(ociSpec *oci.Spec) (err error)
+//@   ghostwrites opn, opk, opsA, opsB, opsC, opiA, opiB, opiC, opiD, opiE, opiF, opiG, opiH
 //@   requires d != nil && d.Device != nil && NoNilEntries(&d.ContainerEdits)
 //@   preserves tags.cncf.io/container-device-interface/specs-go, tags.cncf.io/container-device-interface/pkg/cdi
 //@   frametags C14
 //@ func (s *Spec) ApplyEdits(ociSpec *oci.Spec) (err error)
+//@   ghostwrites opn, opk, opsA, opsB, opsC, opiA, opiB, opiC, opiD, opiE, opiF, opiG, opiH
 //@   requires s != nil && s.Spec != nil && NoNilEntries(&s.ContainerEdits)
 //@   preserves tags.cncf.io/container-device-interface/specs-go, tags.cncf.io/container-device-interface/pkg/cdi
 //@   frametags C14
@@ -855,17 +1059,21 @@ package cdi
 // Preconditions that exclude programmer errors (nil receivers, nil *cdi.Spec arguments, indices outside
 // the slice handed to sort); they are checked at every call site inside the repository.
 
+// C03: mounts are ordered by the depth of their destination: the number of separators of the cleaned path.
+//@ fn MountDepth(dest string) int = Count(Clean(dest), "/")
 //@ func (m orderedMounts) Len() (r int)
 //@   pure
 //@   ensures r == len(m)
 //@ func (m orderedMounts) Less(i, j int) (r bool)
 //@   pure
 //@   requires 0 <= i && i < len(m) && 0 <= j && j < len(m)
+//@   ensures[C03] r == (MountDepth(m[i].Destination) < MountDepth(m[j].Destination))
 //@ func (m orderedMounts) Swap(i, j int)
 //@   requires 0 <= i && i < len(m) && 0 <= j && j < len(m)
 //@ func (m orderedMounts) parts(i int) (r int)
 //@   pure
 //@   requires 0 <= i && i < len(m)
+//@   ensures[C03] r == MountDepth(m[i].Destination)
 
 // ---------------------------------------------------------------- spec.go name generators (C16)
 // A generated name is one path component: not empty, no separator, neither "." nor "..".
